@@ -35,7 +35,8 @@ def job(prop, topo, cfg, budget_s=120, split_depth=None):
     cfg = dict(cfg)
     jid = (f"{topo['name']}|cache={int(cfg['cache'])}|lazy={int(cfg['lazy'])}|sync={''.join(cfg['sync']) or '-'}"
            f"|until={cfg['until']}|K={cfg['K']}|D={cfg['D']}|salt={cfg['salt']}"
-           + (f"|fut" if cfg.get('future_outputs') else '') + (f"|remote={''.join(cfg['remote'])}" if cfg.get('remote') else ''))
+           + (f"|fut" if cfg.get('future_outputs') else '') + (f"|remote={''.join(cfg['remote'])}" if cfg.get('remote') else '')
+           + (f"|cmd={''.join(cfg['remote_cmd'])}|linger={''.join(cfg.get('linger', ()))}" if cfg.get('remote_cmd') else ''))
     j = {'id': jid, 'harness': 'vk.sysrun:system', 'params': {'topo': topo, 'cfg': cfg}, 'budget_s': budget_s}
     if split_depth:
         j['split_depth'] = split_depth
@@ -75,7 +76,14 @@ def plan(prop, tier, seed):
             kk['masks'] = masks if not remote else 'extremes'
             for c in cfgs(t, tier, **kk):
                 c['rules'] = rules
-                if remote:
+                if remote == 'cmd':
+                    # started by the cmd starter; the last simulator's process outlives its connection (it never exits by itself)
+                    sims = sorted(t['types'])
+                    c['remote_cmd'] = sims
+                    c['linger'] = sims[-1:]
+                    if not c['sync']:
+                        continue
+                elif remote:
                     sims = sorted(t['types'])
                     c['remote'] = sims if remote == 'all' else sims[:1]
                     if remote == 'all' and not c['sync']:
@@ -136,6 +144,7 @@ def plan(prop, tier, seed):
         # remote transport in memory: real RemoteProxy / Channel / simulator-side loop, all message orders, shutdown with the stop timeout racing
         add(['tb2', 'hyb2', 'tb_ev'] if q else ['tb2', 'hyb2', 'tb_ev', 'ev2', 'evloop', 'weak2', 'grp_out', 'multi_shift'], K=2, caches=(True,), remote='all')
         add(['hyb2'] if q else ['tb2', 'hyb2', 'tb_ev', 'evloop'], K=2, caches=(False,), lazies=(True,) if q else (True, False), remote='first')
+        add(['tb2'] if q else ['tb2', 'hyb2', 'tb_ev'], K=2, caches=(True,), remote='cmd')
         if not q:
             add(['chain3ev', 'fanin'], K=2, caches=(True,), remote='all', split=18)
             add(['hyb2', 'weak2', 'chain3ev'], K=2, D=1)
